@@ -74,7 +74,10 @@ func startJitterWatch() *jitterWatch {
 	return j
 }
 
-func (j *jitterWatch) Stop() time.Duration { close(j.stop); return time.Duration(atomic.LoadInt64(&j.max)) }
+func (j *jitterWatch) Stop() time.Duration {
+	close(j.stop)
+	return time.Duration(atomic.LoadInt64(&j.max))
+}
 
 func c09CmdCheck(c c09CmdCase) *kit.Verdict {
 	v := &kit.Verdict{Units: c.Targets}
